@@ -1,5 +1,5 @@
 import RpycModel.Gen.Vinegar
-import RpycModel.Base.Py
+import RpycModel.Brine.Model
 /-
 L5 — rpyc/core/vinegar.py and the three places of rpyc/core/protocol.py that use it
 (`Connection._box_exc`, `_unbox_exc`, the local re-raise in `_dispatch_request`, and what
@@ -89,8 +89,14 @@ structure ExcRec where
   cls : ClsId
   args : List PyObj
   dir : List DirEntry
-  tbText : Str          -- `"".join(traceback.format_exception(typ, val, tb))`
-  deriving Repr
+  /-- `"".join(traceback.format_exception(typ, val, tb))`, or the error the traceback module itself raises
+  (a SyntaxError whose detail tuple holds a non-text `text`, ...) -/
+  tbText : Except Err Str
+  /-- the first error raised by something `dump`'s walk over `dir(val)` calls: `repr()` of an argument or attribute
+  brine cannot carry, `getattr` raising something other than AttributeError; `none` for an exception that can be dumped -/
+  walkRaises : Option Err
+
+instance : Repr ExcRec := ⟨fun e _ => repr e.cls⟩
 
 /-- `a if brine.dumpable(a) else repr(a)` -/
 def sendable (o : PyObj) : Val := if dumpable o.val then o.val else .str o.repr
@@ -117,8 +123,14 @@ def versionPair (c : SendCfg) : Val :=
   .tuple [.str Gen.Vinegar.versionAttr,
           .str (if c.includeVer then Gen.Vinegar.versionString else Gen.Vinegar.versionDenied)]
 
-def tbField (c : SendCfg) (e : ExcRec) : Val :=
-  .str (if c.includeTb then e.tbText else Gen.Vinegar.tracebackDenied)
+/-- the traceback field: the formatted text when allowed — or, when formatting raises inside the (generated) `try`, the
+"unavailable" literal; the "denied" marker otherwise -/
+def tbField (c : SendCfg) (e : ExcRec) : Except Err Val :=
+  if c.includeTb then
+    match e.tbText with
+    | .ok t => .ok (.str t)
+    | .error err => if Gen.Vinegar.tbFormatGuarded then .ok (.str Gen.Vinegar.tracebackUnavailable) else .error err
+  else .ok (.str Gen.Vinegar.tracebackDenied)
 
 /-- `typ is StopIteration` -/
 def isStopIteration (c : ClsId) : Bool := c.kind == .builtin && c.name == stopIterationName
@@ -128,13 +140,34 @@ def fastPath (e : ExcRec) : Bool :=
   Gen.Vinegar.stopFastPathExists && isStopIteration e.cls
     && (!Gen.Vinegar.stopFastPathRequiresNoArgs || e.args.isEmpty)
 
-def recordPayload (c : SendCfg) (e : ExcRec) : Val :=
+def recordPayload (c : SendCfg) (e : ExcRec) (tb : Val) : Val :=
   .tuple [.tuple [.str e.cls.modname, .str e.cls.name], .tuple (walkArgs e e.dir),
-          .tuple (walkAttrs e.dir ++ [versionPair c]), tbField c e]
+          .tuple (walkAttrs e.dir ++ [versionPair c]), tb]
 
-/-- `vinegar.dump(typ, val, tb, include_local_traceback, include_local_version)` -/
-def dumpExc (c : SendCfg) (e : ExcRec) : Val :=
-  if fastPath e then .int Gen.Vinegar.excStopIteration else recordPayload c e
+/-- `vinegar.dump(typ, val, tb, include_local_traceback, include_local_version)`; an error = `dump` raises -/
+def dumpExc (c : SendCfg) (e : ExcRec) : Except Err Val :=
+  if fastPath e then .ok (.int Gen.Vinegar.excStopIteration)
+  else match tbField c e with
+    | .error err => .error err
+    | .ok tb => match e.walkRaises with
+      | some err => .error err
+      | none => .ok (recordPayload c e tb)
+
+/-- the record `_send_exception` sends when the exception cannot be dumped or put on the wire: class name, a note in
+place of the arguments, no attributes, a fixed text in place of the traceback — whatever the sender's switches say -/
+def fallbackPayload (e : ExcRec) : Val :=
+  .tuple [.tuple [.str e.cls.modname, .str e.cls.name], .tuple [.str Gen.Vinegar.fallbackNote], .tuple [],
+          .str Gen.Vinegar.fallbackTb]
+
+/-- `Connection._send_exception`: `try: self._send(MSG_EXCEPTION, seq, self._box_exc(t, v, tb))` and, when `dump` or
+brine raises (nothing has been sent yet), the fallback record; an error = nothing is sent and the error leaves `serve()` -/
+def boxExc (c : SendCfg) (e : ExcRec) : Except Err Val :=
+  match dumpExc c e with
+  | .ok p =>
+    match Brine.dump p with
+    | .ok _ => .ok p
+    | .error err => if Gen.Vinegar.fallbackExists then .ok (fallbackPayload e) else .error err
+  | .error err => if Gen.Vinegar.fallbackExists then .ok (fallbackPayload e) else .error err
 
 /-- `_dispatch_request`: `if t is SystemExit and config[...]: raise` / the same for `KeyboardInterrupt` —
 the exception is re-raised in the serving side and nothing is sent -/
